@@ -131,4 +131,26 @@ let () =
            end
          done
        with End_of_file -> ())
-  | _ -> prerr_endline "usage: driver run|mem"; exit 2
+  | _ :: "spec" :: _ ->
+      (* spec oracles, one call per line: id \t fn \t args... *)
+      let rec nat_of_int i = if i <= 0 then O else S (nat_of_int (i - 1)) in
+      (try
+         while true do
+           let line = input_line stdin in
+           if line <> "" then begin
+             match split_on '\t' line with
+             | id :: "expand" :: maxc :: repl :: caps :: _ ->
+                 let caps = Array.of_list (List.map (fun c -> if c = "~" then None else Some (dec c))
+                                             (split_on '|' caps)) in
+                 let cap g = let i = int_of_nat g in if i < Array.length caps then caps.(i) else None in
+                 let maxc = nat_of_int (int_of_string maxc) in
+                 (match parse_repl maxc (dec repl) with
+                  | PItems its -> print_endline (id ^ "\tok:" ^ enc (render maxc cap its))
+                  | PInvalid -> print_endline (id ^ "\tinvalid")
+                  | PFuel -> print_endline (id ^ "\tfuel"))
+             | id :: fn :: _ -> print_endline (id ^ "\tunknown-fn:" ^ fn)
+             | _ -> failwith "bad spec line"
+           end
+         done
+       with End_of_file -> ())
+  | _ -> prerr_endline "usage: driver run|mem|spec"; exit 2
